@@ -5,12 +5,13 @@
 as /verif/seeded/<id>/ (patch.diff, demo.py, meta.json).
 
 usage: tools_seeded.py <property> <k> [needs-text]
+       SEEDED_SRC=/tmp/mut2 SEEDED_ID=<n> tools_seeded.py <property> <k> [needs-text]   (store as <property>-<n>)
 """
 import json, os, shutil, subprocess, sys, time
 
 prop, k = sys.argv[1], sys.argv[2]
-src = "/tmp/mut/%s-out" % prop
-sid = "%s-%s" % (prop, k)
+src = "%s/%s-out" % (os.environ.get("SEEDED_SRC", "/tmp/mut"), prop)
+sid = "%s-%s" % (prop, os.environ.get("SEEDED_ID", k))
 scratch = "/var/tmp/verif-scratch/ingest-%s" % sid
 shutil.rmtree(scratch, ignore_errors=True)
 os.makedirs("/var/tmp/verif-scratch", exist_ok=True)
